@@ -5,8 +5,101 @@
   Tied by ops `as5_*` (harness/ops_allocsafe5.c; ALLOC SIZ value compared exactly) and pins on every C file mirrored.
 -/
 import MpirProofs.Props.C04_allocsafe4
-import Mpir.Model.AllocSafeMpz5
+import MpirProofs.Lemmas.AllocSafeMpz5
 namespace Mpir.AllocSafe5
 open Mpir Mpir.AllocSafe
+open Mpir.Mpz (sgn Norm)
+
+/-! ## mpz_import (mpz/import.c) -/
+
+/-- The number of limbs mpz_import stores through `zp` is exactly the `zsize = ceil (count * (8*size - nail) / 64)` it requests from
+    MPZ_REALLOC (import.c:51-52), on every path: the three word-sized fast paths store `count` limbs (MPN_COPY / MPN_BSWAP /
+    MPN_REVERSE), the generic byte loop stores one limb each time 64 bits have been accumulated (`ACCUMULATE`, invariant
+    `lbits < 64`) and one more for a partial last limb — the C's `ASSERT (zp == PTR(z) + zsize)` (import.c:159) as a theorem, for every
+    count, order, size, endian, nail, alignment and data. -/
+theorem importLimbs_length (count : Nat) (order : Int) (size : Nat) (endian : Int) (nail align : Nat) (data : List Nat) :
+    (importLimbs count order size endian nail align data).1.length = (count * (8 * size - nail) + 63) / 64 := by
+  unfold importLimbs
+  generalize (if endian == 0 then (-1 : Int) else endian) = e
+  unfold importLimbsE
+  split
+  · rename_i h
+    simp only [Bool.and_eq_true, beq_iff_eq] at h
+    obtain ⟨⟨⟨⟨hn, _⟩, hsz⟩, _⟩, _⟩ := h
+    subst hn hsz
+    simp only [List.length_map, List.length_range]; omega
+  · split
+    · rename_i _ h
+      simp only [Bool.and_eq_true, beq_iff_eq] at h
+      obtain ⟨⟨⟨⟨hn, _⟩, hsz⟩, _⟩, _⟩ := h
+      subst hn hsz
+      simp only [List.length_map, List.length_range]; omega
+    · split
+      · rename_i _ _ h
+        simp only [Bool.and_eq_true, beq_iff_eq] at h
+        obtain ⟨⟨⟨⟨hn, _⟩, hsz⟩, _⟩, _⟩ := h
+        subst hn hsz
+        simp only [List.length_map, List.length_range]; omega
+      · rw [Nat.mul_comm 8 size]
+        exact (importGeneric_spec count order size e nail data).1
+
+/-- everything mpz_import stores is a limb (`ASSERT_LIMB (limb)`, import.c:155) -/
+theorem importLimbs_limbs (count : Nat) (order : Int) (size : Nat) (endian : Int) (nail align : Nat) (data : List Nat) :
+    Limbs (importLimbs count order size endian nail align data).1 := by
+  unfold importLimbs
+  generalize (if endian == 0 then (-1 : Int) else endian) = e
+  unfold importLimbsE
+  split
+  · exact Limbs_map_range (leLimb data) count (leLimb_lt data)
+  · split
+    · exact Limbs_map_range (beLimb data) count (beLimb_lt data)
+    · split
+      · exact Limbs_map_range (fun i => leLimb data (count - 1 - i)) count (fun i => leLimb_lt data (count - 1 - i))
+      · exact (importGeneric_spec count order size e nail data).2
+
+-- three 3-byte words with 5 nail bits each, most significant first, big-endian bytes: 57 bits in one limb;
+-- nine bytes of 0xff: 72 bits, a second (partial) limb
+example : importLimbs 3 1 3 1 5 0 [0xff, 0xff, 0xff, 1, 2, 3, 4, 5, 6] = ([144114947827959046], true) := by decide
+example : (importLimbs 9 (-1) 1 0 0 3 (List.replicate 9 255)).1 = [B - 1, 255] := by decide
+
+/-- mpz_import (mpz/import.c), every allocation of z, every count / order / size / endian / nail / alignment / data:
+    `MPZ_REALLOC (z, zsize)` makes room for every limb the fast paths and the byte loop store, MPN_NORMALIZE reads only what was
+    stored, z ends well formed and non-negative with the value of the stored limbs, nothing else is touched. -/
+theorem mpz_import_alloc_safe (s : St) (z count : Nat) (order : Int) (size : Nat) (endian : Int) (nail align : Nat)
+    (data : List Nat) (hs : s.ok = true) (hz : OWF (s.h z)) :
+    Safe s (mpz_import s z count order size endian nail align data) z
+      ⟨(Mpz.grow (view (s.h z)) ((count * (8 * size - nail) + 63) / 64)).alloc,
+       ((normalize (importLimbs count order size endian nail align data).1).length : Nat),
+       normalize (importLimbs count order size endian nail align data).1⟩ ∧
+    Mpz.toInt (view ((mpz_import s z count order size endian nail align data).h z)) =
+      (val (importLimbs count order size endian nail align data).1 : Nat) := by
+  have hlen := importLimbs_length count order size endian nail align data
+  have hlimbs := importLimbs_limbs count order size endian nail align data
+  unfold mpz_import import_
+  simp only [Nat.sub_zero]
+  generalize (importLimbs count order size endian nail align data).1 = L at *
+  rw [← hlen]
+  have G := MPZ_REALLOC_grown s z L.length hz
+  have T := tail_norm (MPZ_REALLOC s z L.length) z L false true (by rw [G.ok]; exact hs) rfl (G.bwf z hz.1) hlimbs G.room
+  simp only [chk_true] at T
+  have R : Refines s _ z _ := Refines.of_grown G T
+  rw [← G.alloc]
+  have hN := Mpz.Norm_normalize hlimbs
+  have hle := Mpz.normalize_length_le L
+  have hroom := G.room
+  have h1 : 1 ≤ ((MPZ_REALLOC s z L.length).h z).buf.alloc := by
+    have := G.mono z; have := hz.2.1; simp only [view] at this; omega
+  have S := R.safe ⟨h1, by simp [sgn]; omega, by simp [sgn], hN.1, hN.2⟩
+  simp only [sgn, Bool.false_eq_true, if_false] at S
+  refine ⟨S, ?_⟩
+  rw [S.2.2.2]
+  simp [Mpz.toInt, Mpz.val_normalize]
+
+-- 16 bytes into a one-limb variable: grown to 2 limbs; a high zero word is normalised away without a reallocation being needed
+example : let s := mpz_import ex 0 2 (-1) 8 0 0 0 ([1, 0, 0, 0, 0, 0, 0, 0, 2, 0, 0, 0, 0, 0, 0, 0]);
+    s.ok = true ∧ view (s.h 0) = ⟨2, 2, [1, 2]⟩ := by decide
+example : view ((mpz_import ex 0 2 1 8 0 0 1 ([0, 0, 0, 0, 0, 0, 0, 0, 2, 0, 0, 0, 0, 0, 0, 0])).h 0) = ⟨2, 1, [2]⟩ := by decide
+-- negative: `MPZ_REALLOC (z, zsize - 1)` — the second limb leaves the block
+example : (import_ 1 ex 0 2 (-1) 8 0 0 0 ([1, 0, 0, 0, 0, 0, 0, 0, 2, 0, 0, 0, 0, 0, 0, 0])).ok = false := by decide
 
 end Mpir.AllocSafe5
